@@ -44,6 +44,10 @@ type CreatorPlan struct {
 	Unblocks int  `json:"unblocks,omitempty"`
 	Again    int  `json:"again,omitempty"`
 	Late     bool `json:"late,omitempty"`
+	// LongAt > 0: the creator's LongAt-th creation (1-based, <= N) keeps its block for LongMs
+	// milliseconds (between the two steps) instead of Hold: a request that takes long.
+	LongAt int `json:"long_at,omitempty"`
+	LongMs int `json:"long_ms,omitempty"`
 }
 
 // PluginPlan is one plugin.
@@ -52,6 +56,9 @@ type PluginPlan struct {
 	After    int `json:"after"`     // Start is issued once this many creations (all creators together) have completed; ignored for residents
 	SyncUs   int `json:"sync_us"`   // pause inside the plugin's Synchronize handler
 	CreateUs int `json:"create_us"` // pause inside the plugin's CreateContainer handler
+	// InLong: Start is issued as soon as the first long block (CreatorPlan.LongAt) has been
+	// granted, so that the registration stays pending behind it (After still applies as well).
+	InLong bool `json:"in_long,omitempty"`
 }
 
 // C08Case is a plan of concurrent creations and registrations.
@@ -65,6 +72,11 @@ type C08Case struct {
 	// "adaptation.sync.done", 2 "adaptation.sync.finishing") on its k-th hit in this case
 	// (registrations are serial: k = ordinal of the registration, residents first).
 	Delays [][3]int `json:"delays"`
+	// ReqTimeoutMs > 0: the plugin request timeout (adaptation.SetPluginRequestTimeout) is set
+	// to this for the execution of the plan instead of the package's 30 s; long blocks last
+	// 2-3 times as long, so that a registration stays pending behind sync blocks for longer
+	// than the request timeout. All handlers still answer within microseconds to 2 ms.
+	ReqTimeoutMs int `json:"req_timeout_ms,omitempty"`
 }
 
 const (
@@ -81,6 +93,11 @@ const (
 	// case, no verdict depends on them.
 	extraCap  = 1500
 	extraWall = 1 * time.Second
+	// longCoins: a generated plan has long blocks and a short request timeout when this many
+	// fair coins all come up heads (1 in 16).
+	longCoins = 4
+	// pkgReqTimeout is the request timeout of every other plan (see TestMain).
+	pkgReqTimeout = 30 * time.Second
 	// activeBound is the property's time clause ("once the last block is released pending
 	// registrations complete"): typical completion takes 5-20 ms.
 	activeBound = 5 * time.Second
@@ -135,6 +152,44 @@ func genC08(t *rapid.T) C08Case {
 		c.Plugins = append(c.Plugins, plug(false))
 	}
 	c.Noise = rapid.IntRange(0, 2).Draw(t, "noise")
+	// a modest share of plans with long blocks (each costs about a second)
+	// (rapid's integer generators favour small values; fair coins give a dependable share)
+	long := true
+	for i := 0; i < longCoins; i++ {
+		long = rapid.Bool().Draw(t, "long") && long
+	}
+	if long {
+		c.ReqTimeoutMs = rapid.IntRange(300, 500).Draw(t, "req_timeout_ms")
+		nl := rapid.IntRange(1, min(3, g)).Draw(t, "long_creators")
+		for i := 0; i < nl; i++ {
+			cp := &c.Creators[i]
+			cp.LongAt = rapid.IntRange(1, min(3, cp.N)).Draw(t, "long_at")
+			lo := 2 * c.ReqTimeoutMs
+			if i > 0 {
+				lo = 1 // further links of a chain may be shorter
+			}
+			cp.LongMs = rapid.IntRange(lo, 3*c.ReqTimeoutMs).Draw(t, "long_ms")
+		}
+		any := false
+		for i := range c.Plugins {
+			c.Plugins[i].InLong = rapid.Bool().Draw(t, "in_long")
+			any = any || c.Plugins[i].InLong
+		}
+		if !any {
+			c.Plugins[0].InLong = true
+		}
+		for i := range c.Plugins {
+			if c.Plugins[i].InLong {
+				c.Plugins[i].After = sum // not earlier than the long block, at the latest when all unconditional creations are done
+			}
+		}
+		for i := range c.Plugins { // handlers answer quickly: only the lock wait is long
+			c.Plugins[i].SyncUs = min(c.Plugins[i].SyncUs, 500)
+		}
+		for i := range c.Residents {
+			c.Residents[i].SyncUs = min(c.Residents[i].SyncUs, 500)
+		}
+	}
 	for k := 0; k < res+p; k++ {
 		var d [3]int
 		for j := range d {
@@ -178,6 +233,11 @@ func normalize(c C08Case) C08Case {
 		if cp.Unblocks == 1 {
 			cp.Again, cp.Late = 0, false
 		}
+		cp.LongAt = clamp(cp.LongAt, 0, cp.N)
+		cp.LongMs = clamp(cp.LongMs, 0, 5000)
+		if cp.LongAt == 0 {
+			cp.LongMs = 0
+		}
 		sum += cp.N
 		cs[i] = cp
 	}
@@ -195,6 +255,9 @@ func normalize(c C08Case) C08Case {
 	}
 	c.Residents, c.Plugins = fix(c.Residents), fix(c.Plugins)
 	c.Noise = clamp(c.Noise, 0, 4)
+	if c.ReqTimeoutMs != 0 {
+		c.ReqTimeoutMs = clamp(c.ReqTimeoutMs, 100, 10000)
+	}
 	ds := make([][3]int, len(c.Delays))
 	for k, d := range c.Delays {
 		for j := range d {
@@ -231,6 +294,7 @@ type Creation struct {
 	TRet    int64  `json:"t_ret"` // CreateContainer returned
 	TRel    int64  `json:"t_rel"` // Unblock returned
 	Err     string `json:"err,omitempty"`
+	LongMs  int    `json:"long_ms,omitempty"` // the block was kept this long on purpose
 }
 
 // Reg is one invocation of the runtime's SyncFn (= one registration reaching synchronization).
@@ -249,6 +313,7 @@ type Reg struct {
 	HeldHdlX   int64  `json:"held_handler_exit"`
 	HeldReturn int64  `json:"held_return"`
 	Err        string `json:"err,omitempty"`
+	CbUs       int64  `json:"cb_us"`    // duration of the NRI sync callback
 	Handlers   int    `json:"handlers"` // Synchronize handler invocations during this SyncFn call
 	Overlap    int    `json:"overlap"`  // creation attempts blocked in BlockPluginSync during [t_entry, t_return] (or the hook-widened section)
 	ExclFrom   int64  `json:"excl_from"`
@@ -351,6 +416,9 @@ type exec struct {
 	done          atomic.Int64 // creations completed (plan's clock for Start points)
 	progress      atomic.Int64
 	stopNoise     atomic.Bool
+	reqTimeout    time.Duration
+	syncFail      string       // a registration was failed by the runtime although its synchronization was quick (under mu)
+	longStarted   atomic.Bool  // the first long block has been granted
 	extraUnblocks atomic.Int64 // Unblock calls beyond the first one of a block
 	crecs         [][]Creation
 }
@@ -432,7 +500,10 @@ func (x *exec) syncFn(ctx context.Context, cb adaptation.SyncCB) error {
 	x.storeMu.Unlock()
 	reg.SnapLen = len(snap)
 
+	t0 := time.Now()
 	_, err := cb(ctx, []*api.PodSandbox{x.pod}, snap)
+	took := time.Since(t0)
+	reg.CbUs = int64(took / time.Microsecond)
 
 	reg.HeldReturn = x.held.Load()
 	x.mu.Lock()
@@ -440,7 +511,22 @@ func (x *exec) syncFn(ctx context.Context, cb adaptation.SyncCB) error {
 	x.mu.Unlock()
 	if err != nil {
 		reg.Err = err.Error()
-		x.infraf("synchronization of %q failed: %v", reg.Plugin, err)
+		who := reg.Plugin
+		if who == "" {
+			who = x.oldestPending() // the handler has not run (yet); registrations are serial
+		}
+		if took < x.reqTimeout/2 {
+			// Not a slow plugin or an overloaded machine: the NRI sync callback came back within
+			// half the request timeout and still failed the registration. Judged under "once the
+			// last block is released pending registrations complete" (re-execution protocol).
+			x.mu.Lock()
+			if x.syncFail == "" {
+				x.syncFail = fmt.Sprintf("the registration of plugin %q (pending from %d µs, sync lock granted at %d µs) was failed by the runtime: %v — although the sync callback took only %v of the %v request timeout (Synchronize handler invocations: %d)", who, x.startedAt(who), reg.TEntry, err, took.Round(10*time.Microsecond), x.reqTimeout, reg.Handlers)
+			}
+			x.mu.Unlock()
+		} else {
+			x.infraf("synchronization of %q failed after %v: %v", reg.Plugin, took, err)
+		}
 	}
 	x.mu.Lock()
 	reg.TReturn = x.now()
@@ -460,7 +546,12 @@ func (x *exec) newPlug(i int, pp PluginPlan, resident bool) *plug {
 	mask := api.MustParseEventMask("CreateContainer", "StopPodSandbox", "RemovePodSandbox")
 	p := &fx.Plugin{Name: pl.name, Idx: fmt.Sprintf("%02d", pp.Idx), Mask: mask}
 	p.OnSynchronize = func(_ context.Context, _ []*api.PodSandbox, ctrs []*api.Container) ([]*api.ContainerUpdate, error) {
+		// A reading of the block count only counts while the runtime's SyncFn is in progress
+		// (before and after the reading): a handler that runs after the runtime gave up on the
+		// request (request timeout on an overloaded machine) says nothing about the sync lock.
+		in0 := x.inSync.Load() > 0
 		t0, h0 := x.now(), x.held.Load()
+		in0 = in0 && x.inSync.Load() > 0
 		pl.mu.Lock()
 		pl.syncCalls++
 		for _, c := range ctrs {
@@ -468,7 +559,18 @@ func (x *exec) newPlug(i int, pp PluginPlan, resident bool) *plug {
 		}
 		pl.mu.Unlock()
 		pause(orNone(pp.SyncUs))
+		in1 := x.inSync.Load() > 0
 		t1, h1 := x.now(), x.held.Load()
+		in1 = in1 && x.inSync.Load() > 0
+		if !in0 || !in1 {
+			x.infraf("plugin %s: its Synchronize handler ran (partly) outside the runtime's SyncFn call", pl.name)
+		}
+		if !in0 {
+			h0 = 0
+		}
+		if !in1 {
+			h1 = 0
+		}
 		x.mu.Lock()
 		if reg := x.curReg; reg != nil {
 			reg.Handlers++
@@ -569,6 +671,40 @@ func (x *exec) waitActive(pls []*plug, deadline time.Time) []*plug {
 	}
 }
 
+// startedAt returns when the named plugin's Start returned (µs), or -1.
+func (x *exec) startedAt(name string) int64 {
+	for _, pl := range x.plugs {
+		if pl.name == name {
+			select {
+			case <-pl.started:
+				return pl.tStarted
+			default:
+			}
+		}
+	}
+	return -1
+}
+
+// oldestPending names the planned plugin whose Start returned first among those whose
+// registration has not been synchronized yet (diagnostics only), or "".
+func (x *exec) oldestPending() string {
+	synced := map[string]bool{}
+	x.mu.Lock()
+	for _, rg := range x.regs {
+		if rg.TReturn != 0 {
+			synced[rg.Plugin] = true
+		}
+	}
+	x.mu.Unlock()
+	best, bestT := "", int64(0)
+	for _, pl := range x.plugs {
+		if st := x.startedAt(pl.name); !pl.resident && !synced[pl.name] && st >= 0 && pl.startErr == "" && (best == "" || st < bestT) {
+			best, bestT = pl.name, st
+		}
+	}
+	return best
+}
+
 // unsynced names a planned plugin whose Start was issued and whose registration has not
 // been synchronized yet (its SyncFn call has not returned), or "".
 func (x *exec) unsynced() string {
@@ -605,7 +741,7 @@ func (x *exec) add(c *api.Container) {
 // block of the same goroutine that has been unblocked already and is unblocked once more
 // inside this block (a no-op by the documented contract). It returns the block when the
 // plan wants it unblocked again after the step (atEnd) or inside the next block (late).
-func (x *exec) createOne(creator int, id string, cp CreatorPlan, carry *adaptation.PluginSyncBlock) (rec Creation, atEnd, late *adaptation.PluginSyncBlock) {
+func (x *exec) createOne(creator int, id string, cp CreatorPlan, carry *adaptation.PluginSyncBlock, long bool) (rec Creation, atEnd, late *adaptation.PluginSyncBlock) {
 	rec = Creation{ID: id, Creator: creator}
 	ctr := &api.Container{Id: id, PodSandboxId: x.pod.Id, Name: id}
 	rec.TReq = x.now()
@@ -614,6 +750,18 @@ func (x *exec) createOne(creator int, id string, cp CreatorPlan, carry *adaptati
 	x.held.Add(1)
 	if n := x.inSync.Load(); n != 0 {
 		x.finding("sync-at-acquire", "BlockPluginSync returned (creation %s) while a plugin was being synchronized (SyncFn in progress)", id)
+	}
+	hold := func() { pause(cp.Hold) }
+	if long {
+		rec.LongMs = cp.LongMs
+		if x.longStarted.CompareAndSwap(false, true) {
+			for _, pl := range x.plugs {
+				if !pl.resident && pl.plan.InLong && pl.launched.CompareAndSwap(false, true) {
+					go pl.start(x)
+				}
+			}
+		}
+		hold = func() { time.Sleep(time.Duration(cp.LongMs) * time.Millisecond) }
 	}
 	if carry != nil {
 		carry.Unblock() // released long ago: must not affect the block just granted
@@ -631,11 +779,11 @@ func (x *exec) createOne(creator int, id string, cp CreatorPlan, carry *adaptati
 	if cp.AddFirst {
 		x.add(ctr)
 		rec.TAdd = x.now()
-		pause(cp.Hold)
+		hold()
 		create()
 	} else {
 		create()
-		pause(cp.Hold)
+		hold()
 		x.add(ctr)
 		rec.TAdd = x.now()
 	}
@@ -679,7 +827,7 @@ func (x *exec) creator(i int, cp CreatorPlan) {
 	k := 0
 	var carry *adaptation.PluginSyncBlock
 	one := func() {
-		rec, atEnd, late := x.createOne(i, fmt.Sprintf("c%d-%d", i, k), cp, carry)
+		rec, atEnd, late := x.createOne(i, fmt.Sprintf("c%d-%d", i, k), cp, carry, cp.LongAt > 0 && k+1 == cp.LongAt)
 		carry = late
 		x.crecs[i] = append(x.crecs[i], rec)
 		k++
@@ -763,6 +911,11 @@ func execute(c C08Case, attempt int) result {
 	// the fixture's default path; from now on every call belongs to an external plugin.
 	r.SyncFn = x.syncFn
 	cur.Store(x)
+	x.reqTimeout = pkgReqTimeout
+	if c.ReqTimeoutMs > 0 {
+		x.reqTimeout = time.Duration(c.ReqTimeoutMs) * time.Millisecond
+	}
+	adaptation.SetPluginRequestTimeout(x.reqTimeout)
 
 	hist := History{Attempt: attempt, Hooks: verifhook.Enabled}
 	stuck, stuckFor := false, time.Duration(0)
@@ -801,6 +954,7 @@ func execute(c C08Case, attempt int) result {
 		case <-sdone:
 		case <-time.After(2 * time.Second):
 		}
+		adaptation.SetPluginRequestTimeout(pkgReqTimeout)
 		cur.CompareAndSwap(x, nil)
 	}
 	defer teardown()
@@ -874,6 +1028,13 @@ func execute(c C08Case, attempt int) result {
 			pending = append(pending, pl)
 		}
 	}
+	x.mu.Lock()
+	syncFail := x.syncFail
+	x.mu.Unlock()
+	if timeFail == "" && syncFail != "" {
+		// that registration will never complete: no point in waiting activeBound for it
+		timeFail = syncFail
+	}
 	if timeFail == "" {
 		if stuck {
 			// Creators are blocked inside BlockPluginSync / CreateContainer and made no progress
@@ -913,7 +1074,7 @@ func execute(c C08Case, attempt int) result {
 
 	// --- a final creation, after every registration completed: active plugins must get it ---
 	if timeFail == "" && !stuck {
-		rec, _, _ := x.createOne(-1, "final", CreatorPlan{AddFirst: true, Hold: -1, Unblocks: 1}, nil)
+		rec, _, _ := x.createOne(-1, "final", CreatorPlan{AddFirst: true, Hold: -1, Unblocks: 1}, nil, false)
 		x.crecs = append(x.crecs, []Creation{rec})
 	}
 
@@ -944,7 +1105,7 @@ func execute(c C08Case, attempt int) result {
 	x.storeMu.Unlock()
 	hist.StoreN = len(ids)
 
-	judgeXOR := len(infra) == 0 && !stuck
+	judgeXOR := len(infra) == 0 && !stuck && syncFail == ""
 	offending := map[string]bool{}
 	for _, pl := range x.plugs {
 		pl.mu.Lock()
@@ -1052,6 +1213,20 @@ func execute(c C08Case, attempt int) result {
 	}
 
 	classes := classesOf(c, regs, nRes, overlapped, totalOverlap)
+	if c.ReqTimeoutMs > 0 {
+		classes = append(classes, "long-hold")
+		over := 0
+		for _, rg := range regs {
+			if st := x.startedAt(rg.Plugin); rg.Ord >= nRes && st >= 0 && rg.TEntry-st > int64(x.reqTimeout/time.Microsecond) {
+				over++
+			}
+		}
+		if over > 0 {
+			// a registration (RegisterPlugin + Configure done: Start had returned) stayed pending
+			// behind sync blocks for longer than the request timeout before it was synchronized
+			classes = append(classes, "long-hold,pending>timeout")
+		}
+	}
 	out := ev.Outcome{Classes: classes, NonTrivial: overlapped > 0}
 	switch {
 	case len(findings) > 0:
@@ -1059,7 +1234,7 @@ func execute(c C08Case, attempt int) result {
 		out.Fail = strings.Join(findings, "; ")
 		out.History = hist
 		return result{out: out}
-	case len(infra) > 0:
+	case len(infra) > 0 && syncFail == "":
 		return result{out: out, infra: strings.Join(infra, "; ")}
 	case timeFail != "":
 		fill()
@@ -1230,3 +1405,61 @@ func runC08(c C08Case) ev.Outcome {
 }
 
 func TestProp_C08(t *testing.T) { ev.Run(t, "C08", genC08, runC08) }
+
+// sweepCases are directed plans: registrations that stay pending behind long sync blocks
+// for 2-3 times the (shortened) plugin request timeout.
+func sweepCases() []C08Case {
+	// After is clamped to the sum of the unconditional creations: in effect only InLong counts
+	pl := func(idx int) PluginPlan { return PluginPlan{Idx: idx, After: 1 << 20, CreateUs: 5, InLong: true} }
+	cr := func(addFirst bool, n, longAt, longMs int) CreatorPlan {
+		return CreatorPlan{AddFirst: addFirst, N: n, Tail: 3, Hold: -1, Gap: 0, Unblocks: 1, LongAt: longAt, LongMs: longMs}
+	}
+	d := func(n int) [][3]int {
+		var out [][3]int
+		for k := 0; k < n; k++ {
+			out = append(out, [3]int{0, 200, -1})
+		}
+		return out
+	}
+	multi := cr(true, 4, 2, 800)
+	multi.Unblocks, multi.Again, multi.Late = 3, 0, true
+	return []C08Case{
+		// one long block, one plugin registering behind it
+		{Pre: 2, Creators: []CreatorPlan{cr(true, 3, 1, 900)}, Plugins: []PluginPlan{pl(10)}, Delays: d(1), ReqTimeoutMs: 300},
+		// bookkeeping after the request; a second, ordinary creator; two plugins; a resident; noise
+		{Pre: 1, Residents: []PluginPlan{{Idx: 5}}, Creators: []CreatorPlan{cr(false, 3, 2, 1000), cr(true, 10, 0, 0)},
+			Plugins: []PluginPlan{pl(20), pl(3)}, Noise: 1, Delays: d(3), ReqTimeoutMs: 400},
+		// several long blocks of different creators, granted before the registration queues up
+		{Creators: []CreatorPlan{cr(true, 2, 1, 900), cr(false, 2, 1, 600), cr(true, 3, 1, 1200)},
+			Plugins: []PluginPlan{pl(50)}, Noise: 2, Delays: d(1), ReqTimeoutMs: 400},
+		// long block of a creator that unblocks three times, the last time inside its next block
+		{Pre: 3, Creators: []CreatorPlan{multi, cr(false, 6, 0, 0)}, Plugins: []PluginPlan{pl(7), pl(8)}, Delays: d(2), ReqTimeoutMs: 350},
+		// the default-sized timeout of the library (2 s) with a block of 2.5 s
+		{Creators: []CreatorPlan{cr(true, 2, 1, 2500)}, Plugins: []PluginPlan{pl(1)}, Delays: d(1), ReqTimeoutMs: 2000},
+	}
+}
+
+func TestExh_C08(t *testing.T) {
+	if i, _ := ev.Shard(); i != 0 {
+		t.Skip("sweep runs in shard 0 only")
+	}
+	r := ev.Get("C08")
+	defer r.Flush()
+	n := 0
+	for _, c := range sweepCases() {
+		raw := ev.Snapshot(c)
+		r.Journal(raw)
+		o := runC08(c)
+		r.ClearJournal()
+		for i, k := range o.Classes { // keep the sweep out of the generator-health histogram keys
+			o.Classes[i] = "sweep/" + k
+		}
+		o.Classes = append([]string{"sweep"}, o.Classes...)
+		r.Record(raw, o)
+		n++
+		r.SetExtra("sweep_cases", n)
+		if o.Fail != "" {
+			t.Fatalf("C08 sweep case %d: %s", n, o.Fail)
+		}
+	}
+}
